@@ -65,7 +65,7 @@ func norm(in *iterIn) {
 	}
 }
 
-const iterCap = 3000
+const iterCap = 12000
 
 type stepper struct {
 	next func() bool
